@@ -206,32 +206,26 @@ example : MonoHist w0 hist0 := by
   rw [hnil] at hq
   cases hq
 
-/-! ## FALSE of the unchanged code: the probe timeout does not double -/
+/-! ## the probe timeout doubles
 
-/-- `pto (n+1) = 2 · pto n` for every RTT estimate, max_ack_delay and space -/
-theorem pto_doubles_fails : ¬ (∀ srtt rttvar mad n data,
-    ptoInterval srtt rttvar mad (n + 1) data = 2 * ptoInterval srtt rttvar mad n data) := by
-  intro h
-  have := h 33000000 16500000 0 0 false
-  revert this
-  decide
+(`fix-C13-pto-backoff`: before it only `max(4·rttvar, 1 ms)` was scaled by `2^pto_count`.) -/
 
-/-- only the variance term (and `max_ack_delay`) is scaled: the exact law of `Rtt::base_pto` -/
-theorem pto_variance_term_doubles (srtt rttvar mad n : Nat) (data : Bool) :
-    ptoInterval srtt rttvar mad (n + 1) data + srtt = 2 * ptoInterval srtt rttvar mad n data := by
+/-- `pto (n+1) = 2 · pto n` for every RTT estimate, max_ack_delay and space (`Rtt::base_pto`, `get_pto`,
+`get_pto_time_and_epoch`) -/
+theorem pto_doubles (srtt rttvar mad n : Nat) (data : Bool) :
+    ptoInterval srtt rttvar mad (n + 1) data = 2 * ptoInterval srtt rttvar mad n data := by
   have e1 : ∀ a b : Nat, a * (b * 2) = 2 * (a * b) := by
     intro a b; rw [Nat.mul_comm b 2, Nat.mul_left_comm]
   unfold ptoInterval basePto
   rw [Nat.pow_succ]
   split <;> simp only [e1] <;> omega
 
-/-- doubling holds exactly when the smoothed RTT is zero -/
-theorem pto_doubles_partial (srtt rttvar mad n : Nat) (data : Bool) (h0 : srtt = 0) :
-    ptoInterval srtt rttvar mad (n + 1) data = 2 * ptoInterval srtt rttvar mad n data := by
-  have := pto_variance_term_doubles srtt rttvar mad n data
-  omega
-
-example : ptoInterval 0 16500000 0 1 false = 2 * ptoInterval 0 16500000 0 0 false := by decide
+/-- hence the interval after `n` consecutive timeouts is `2^n` times the base interval -/
+theorem pto_exponential (srtt rttvar mad n : Nat) (data : Bool) :
+    ptoInterval srtt rttvar mad n data = 2 ^ n * ptoInterval srtt rttvar mad 0 data := by
+  induction n with
+  | zero => simp
+  | succ k ih => rw [pto_doubles, ih, Nat.pow_succ, Nat.mul_comm (2 ^ k) 2, Nat.mul_assoc]
 
 /-! ## FALSE of the unchanged code: the window shrinks more than once per round trip -/
 
@@ -331,51 +325,75 @@ example : ∃ s s' : St, setTimer s 33000000 16500000 = .ok s' ∧ s.aaLimit = f
    _, rfl, rfl, by decide⟩
 
 
-/-! ## FALSE of the unchanged code: the PTO backoff is forgotten whenever a client sends a Handshake packet -/
+/-! ## sending never forgets the PTO backoff
 
-/-- sending a packet never lowers `pto_count` (the backoff is reset by acknowledgements and by discarding keys only) -/
-def SendKeepsBackoff : Prop :=
-  ∀ (s s' : St) (i : Inp) (e pn : Nat) (elic infl : Bool) (size : Nat),
-    onPktSent s i e pn elic infl size = .ok s' → s.pto ≤ s'.pto
+(`fix-C13-discard-once`: before it, `ArcCC::on_pkt_sent` reset `pto_count` through `discard_epoch(Initial)` on every
+Handshake packet a client sent.) -/
 
-/-- fixed case 5 of the harness: `ArcCC::on_pkt_sent` calls `discard_epoch(Initial)` — which sets
-`pto_count = 0` — on *every* Handshake packet a client sends, so a client whose Handshake packets go
-unanswered probes at a constant interval and never reaches `TooManyPtos` -/
-theorem send_keeps_backoff_fails : ¬ SendKeepsBackoff := by
-  intro h
-  have := h { pto := 3, aaLimit := false, hsKey := true }
-    ((onPktSent { pto := 3, aaLimit := false, hsKey := true } inp0 1 0 true true 300).toOption.getD {})
-    inp0 1 0 true true 300 rfl
-  revert this
-  decide
+theorem setSp_keeps (x : St) (e : Nat) (sp : Space) :
+    (setSp x e sp).pto = x.pto ∧ (setSp x e sp).server = x.server ∧ (setSp x e sp).disc0 = x.disc0 ∧
+    (setSp x e sp).disc1 = x.disc1 := by
+  unfold setSp; split <;> exact ⟨rfl, rfl, rfl, rfl⟩
 
-theorem send_keeps_backoff_partial (s s' : St) (i : Inp) (e pn : Nat) (elic infl : Bool) (size : Nat)
-    (h : onPktSent s i e pn elic infl size = .ok s') (hne : s.server = true ∨ e ≠ 1) : s.pto ≤ s'.pto := by
-  have hsp : ∀ (x : St) (e : Nat) (sp : Space), (setSp x e sp).pto = x.pto ∧ (setSp x e sp).server = x.server := by
-    intro x e sp; unfold setSp; split <;> exact ⟨rfl, rfl⟩
+/-- discarding a space resets the backoff only the first time, and marks the space -/
+theorem discard_resets_once (s s' : St) (e srtt rttvar : Nat) (h : discardEpoch s e srtt rttvar = .ok s') :
+    isDiscarded s' e = true ∧ (isDiscarded s e = true → s'.pto = s.pto) := by
+  unfold discardEpoch at h
+  split at h
+  · cases h
+  · simp only [ebind_ok] at h
+    obtain ⟨bytes, _, h2⟩ := h
+    rw [setTimer_eq h2]
+    have k := setSp_keeps { s with bytes := bytes } e { getSp s e with sent := [], tl := none, lt := none }
+    unfold discardReset
+    simp only
+    cases hd : isDiscarded s e
+    · simp only [Bool.false_eq_true, if_false]
+      refine ⟨?_, fun h => by cases h⟩
+      cases e with
+      | zero => rfl
+      | succ n => rfl
+    · simp only [if_true]
+      refine ⟨?_, fun _ => k.1⟩
+      unfold isDiscarded at hd ⊢
+      split at hd
+      · simp only; rw [k.2.2.1]; exact hd
+      · simp only; rw [k.2.2.2]; exact hd
+
+example : ∃ s s' : St, discardEpoch s 0 1 1 = .ok s' ∧ isDiscarded s 0 = true ∧ s.pto = 3 :=
+  ⟨{ disc0 := true, pto := 3 }, _, rfl, rfl, rfl⟩
+
+/-- Sending a packet never lowers `pto_count`, except for the one Handshake packet with which a client discards
+its Initial keys (RFC 9002 §6.2.2.1 / A.10: discarding keys resets the backoff). -/
+theorem send_keeps_backoff (s s' : St) (i : Inp) (e pn : Nat) (elic infl : Bool) (size : Nat)
+    (h : onPktSent s i e pn elic infl size = .ok s') (hne : s.disc0 = true ∨ s.server = true ∨ e ≠ 1) :
+    s.pto ≤ s'.pto := by
   unfold onPktSent at h
   simp only [ebind_ok] at h
   obtain ⟨s1, h1, h2⟩ := h
-  have k1 : s1.pto = s.pto ∧ s1.server = s.server := by
+  have k1 : s1.pto = s.pto ∧ s1.server = s.server ∧ s1.disc0 = s.disc0 := by
     split at h1
     · rw [setTimer_eq h1]
       unfold sentInflight
-      exact hsp _ _ _
-    · cases h1; exact ⟨rfl, rfl⟩
-  have k2 := hsp s1 e { getSp s1 e with sent := (getSp s1 e).sent ++ [{ pn := pn, ts := s.now, elic := elic, cc := infl, size := size, st := PSt.I }] }
+      simp only
+      exact ⟨(setSp_keeps _ _ _).1, (setSp_keeps _ _ _).2.1, (setSp_keeps _ _ _).2.2.1⟩
+    · cases h1; exact ⟨rfl, rfl, rfl⟩
+  have k2 := setSp_keeps s1 e { getSp s1 e with sent := (getSp s1 e).sent ++ [{ pn := pn, ts := s.now, elic := elic, cc := infl, size := size, st := PSt.I }] }
   unfold pushPkt at h2
   simp only at h2
   split at h2
   · rename_i hc
     simp only [Bool.and_eq_true, beq_iff_eq, Bool.not_eq_true'] at hc
-    rw [k2.2, k1.2] at hc
-    rcases hne with hs | he
+    rw [k2.2.1, k1.2.1] at hc
+    rcases hne with hd | hs | he
+    · have := (discard_resets_once _ s' 0 _ _ h2).2 (by unfold isDiscarded; rw [k2.2.2.1, k1.2.2]; exact hd)
+      rw [this, k2.1, k1.1]; exact Nat.le_refl _
     · rw [hs] at hc; cases hc.2
     · exact absurd hc.1 he
   · cases h2
-    rw [k2.1, k1.1]
-    exact Nat.le_refl _
+    rw [k2.1, k1.1]; exact Nat.le_refl _
 
-example : ∃ (s s' : St), onPktSent s inp0 2 0 true true 300 = .ok s' := ⟨{}, _, rfl⟩
+example : ∃ (s s' : St), onPktSent s inp0 1 0 true true 300 = .ok s' ∧ s.disc0 = true ∧ s.pto = 3 ∧ s'.pto = 3 :=
+  ⟨{ disc0 := true, pto := 3, aaLimit := false, hsKey := true }, _, rfl, rfl, rfl, by decide⟩
 
 end GmQuic.Props.C13
